@@ -28,8 +28,7 @@ package main
 //@     invariant forall i int {loader.progs[i]} :: 0 <= i && i < len(loader.progs) ==> wfProg(loader.progs[i])
 
 //@ func checkGeneratedCode(f) (r)
-//@   requires f != nil
-//@   requires f.Doc != nil ==> (forall i int :: 0 <= i && i < len(f.Doc.List) ==> f.Doc.List[i] != nil)
+//@   requires f != nil && docOK(f)
 //@   ensures [C18] generated-if: r ==> (astIsGenerated(f) || (f.Doc != nil && exists i int :: 0 <= i && i < len(f.Doc.List) && strContains(f.Doc.List[i].Text, "@generated")))
 //@   ensures [C18] generated-only-if: !r ==> (!astIsGenerated(f) && (f.Doc == nil || forall i int :: 0 <= i && i < len(f.Doc.List) ==> !strContains(f.Doc.List[i].Text, "@generated")))
 //@   assigns nothing
@@ -50,20 +49,24 @@ package main
 //@   ensures [C12] forall w Iface :: w != cmd.Stderr && w != cmd.Stdout ==> outs[w] == old(outs)[w]
 
 //@ func (r *patchRunner) Apply(filename, f) (fout, comments, matched)
-//@   requires f != nil
+//@   requires f != nil && astOK(f)
 //@   requires wfProgs(r.patches)
-//@   assigns r.errors, elems(r.errors), group(ast), matchCount, replFail
+//@   assigns r.errors, elems(r.errors), group(ast), matchCount, replFail, sitesReplaced
 //@   ensures [C06,C08,C09] matched-has-file: matched ==> fout != nil
 //@   ensures [C06] matched-only-after-match: matched ==> matchCount > old(matchCount)
 //@   ensures [C09,C12,C16] failed-replace-means-unmatched: replFail > old(replFail) ==> (!matched && len(r.errors) > old(len(r.errors)))
 //@   ensures [C06,C09] only-errors-grow: len(r.errors) >= old(len(r.errors))
 //@   loop 0
+//@     invariant astOK(f)
+//@     invariant [C09] later-changes-see-the-rewritten-file: fout == nil || fout == f
 //@     invariant matched ==> fout != nil
 //@     invariant matched ==> matchCount > old(matchCount)
 //@     invariant matchCount >= old(matchCount)
 //@     invariant replFail == old(replFail)
 //@     invariant len(r.errors) >= old(len(r.errors))
 //@   loop 1
+//@     invariant astOK(f)
+//@     invariant [C09] later-changes-see-the-rewritten-file: fout == nil || fout == f
 //@     invariant matched ==> fout != nil
 //@     invariant matched ==> matchCount > old(matchCount)
 //@     invariant matchCount >= old(matchCount)
@@ -132,9 +135,7 @@ package main
 // Comments are only ever removed, and only those lying entirely inside a changed interval; the lines they
 // occupied are merged (C17). No comment is added, moved or duplicated here.
 //@ func cleanupFilePos(tfile, cl, comments)
-//@   requires tfile != nil
-//@   requires typing: forall g int {comments[g]} :: 0 <= g && g < len(comments) ==> comments[g] != nil && forall c int {comments[g].List[c]} :: 0 <= c && c < len(comments[g].List) ==> comments[g].List[c] != nil
-//@   assigns group(ast)
+//@   assigns allof("F.S_ast_CommentGroup.List")
 //@   loop 0
 //@     invariant linesToDelete != nil
 //@   loop 1
